@@ -60,6 +60,18 @@ class SubUndirected(UnDirectedEdge):
     pass
 
 
+class Mixin:
+    """A foreign first base: the edgegraph ancestor is then NOT on the __base__ chain, only on the MRO."""
+
+
+class MixedVertex(Mixin, SubVertex):
+    pass
+
+
+class MixedDirected(Mixin, SubDirected):
+    pass
+
+
 class OddLink(TwoEndedLink):
     """A two-ended link that is neither directed nor undirected ('unknown' class)."""
 
@@ -68,7 +80,7 @@ class SubOdd(OddLink):
     pass
 
 
-LINK_CLASSES = [DirectedEdge, UnDirectedEdge, SubDirected, SubUndirected, OddLink, SubOdd]
+LINK_CLASSES = [DirectedEdge, UnDirectedEdge, SubDirected, SubUndirected, OddLink, SubOdd, MixedDirected]
 LINK_NAMES = [c.__name__ for c in LINK_CLASSES]
 KIND = {
     DirectedEdge: "D",
@@ -77,8 +89,9 @@ KIND = {
     SubUndirected: "U",
     OddLink: "X",
     SubOdd: "X",
+    MixedDirected: "D",
 }
-VERTEX_CLASSES = [Vertex, SubVertex, FalsyVertex, EmptyLenVertex]
+VERTEX_CLASSES = [Vertex, SubVertex, FalsyVertex, EmptyLenVertex, MixedVertex]
 
 
 def kind_of(link):
